@@ -353,7 +353,7 @@ def run(facts, rep, tier, ctx):
         rep.floor("delegation obligations (%s)" % w.tag, n, 40)
         n = physical_gate(facts, rep, w, D)
         rep.floor("PhysicalFS gate obligations (%s)" % w.tag, n, 4)
-        n = physrules.table_o_shape(facts, rep, "R07.1p", w) if not w.asyncw else 0
+        n = physrules.table_o_shape(facts, rep, ("A/" if w.asyncw else "") + "R07.1p", w)
     # an adapter's root is an ordinary directory of the filesystem underneath: remove_dir_all removes it like any other
     # (Table P: every Ok return has passed remove_dir(self))
     from ..pathrules import PathRules
